@@ -44,6 +44,7 @@ class Composition(object):
     def empty(self):
         """Remove all the tracks from this class."""
         self.tracks = []
+        self.selected_tracks = []
 
     def reset(self):
         """Reset the information in this class.
